@@ -91,6 +91,9 @@ func RequestBackfill(ctx context.Context, origin spec.ServerName, b BackfillRequ
 			default:
 				continue
 			}
+			if res.Event.RoomID().String() != roomID {
+				continue // not an event of the room we are backfilling
+			}
 			if haveEventIDs[res.Event.EventID()] {
 				continue // we got this event from a different server
 			}
